@@ -39,6 +39,12 @@ def _load(pid):
         d = os.path.join(SEEDED, "twins", "%s-T%d.diff" % (pid.upper(), k))
         if os.path.isfile(d):
             out.append({"id": "twin-%s-T%d" % (pid.upper(), k), "kind": "twin", "diff": d, "what": "independently written behaviour-preserving edit (seeded/twins)"})
+    # additions outside the anchor functions (a new parser, datasource, response type, provider, factory ...): what the sweeps must / must not report
+    import glob
+    for d in sorted(glob.glob(os.path.join(SEEDED, "sweeps", "%s-break-*.diff" % pid.upper()))):
+        out.append({"id": "sweep-" + os.path.basename(d)[:-5], "rule": None, "diff": d, "what": "breaking addition outside the anchor functions (seeded/sweeps)"})
+    for d in sorted(glob.glob(os.path.join(SEEDED, "sweeps", "%s-twin-*.diff" % pid.upper()))):
+        out.append({"id": "sweep-" + os.path.basename(d)[:-5], "kind": "twin", "diff": d, "what": "benign addition outside the anchor functions (seeded/sweeps)"})
     return out
 
 
